@@ -17,7 +17,8 @@ ASSUMPTIONS = ['in-memory asdf double', 'merger-tree (mainprog) columns are stor
 CHUNK = 1
 WORKERS = 16
 
-BOXVEL = [(1.0, 1.0), (32.0, 3200.0), (2000.0, 208774.9025637363), (500, 7.0)]   # the last BoxSize is stored as an integer in the header
+BOXVEL = [(1.0, 1.0), (32.0, 3200.0), (2000.0, 208774.9025637363), (500, 7.0),    # the 4th BoxSize is stored as an integer in the header
+          (1.0, 50.0), (64.0, 1.0), (1, 0.125)]                                     # exactly one of the two factors is 1 (a "no-op multiply" shortcut must look at the right one)
 REFV = [0.0, 1e-3, 0.25, 1.0]
 RADII = ('r10', 'r25', 'r33', 'r50', 'r67', 'r75', 'r90', 'r95', 'r98')
 
@@ -61,7 +62,7 @@ def cases(tier, seed):
             for cleaned in (True, False):
                 yield dict(bi=bi, rot=rot, cleaned=cleaned)
     # request-order sweep: every ratio/derived column together with its reference column, in both orders, and alone
-    for bi in (1, 2, 3):
+    for bi in (1, 2, 3, 4):
         for cleaned in (True, False):
             yield dict(kind='orders', bi=bi, rot=bi, cleaned=cleaned)
 
